@@ -27,6 +27,10 @@ def swarm(rng, focus, tier='quick'):
     pool = list(INT_NODES) if rng.random() < 0.7 else list(STR_NODES)
     if focus in ('C09', 'C10', 'C18', 'C11') and rng.random() < 0.25:
         pool = list(STR_NODES_X)
+    if focus in ('C11', 'C01', 'C02', 'C16') and isinstance(pool[0], str) and rng.random() < 0.4:
+        pool = ['', 'b', 'c', 'd', 'e', 'f']          # the empty string is a legal (falsy) node id
+    if focus in ('C09', 'C10', 'C18') and isinstance(pool[0], str) and pool[0] == 'a' and rng.random() < 0.3:
+        pool = ['New York', 'b', 'c d', 'Rio', 'e', 'f g h']   # ids with inner blanks: only with non-blank delimiters
     if focus in ('C12', 'C13', 'C15', 'C20', 'C02') and rng.random() < 0.3:
         # ids whose text is a prefix of another id's text (occurrence names are built from str(id))
         pool = [1, 12, 2, 21, 11, 0] if isinstance(pool[0], int) else ['a', 'ab', 'b', 'ba', 'aa', 'c']
@@ -208,7 +212,8 @@ def gen_bulk(rng, rep, cfg, fault=None):
     return op
 
 
-ATTR_POOL = [{'Label': 'A'}, {'Label': 'B'}, {'w': 1}, {'tags': ['x']}, {'meta': {'k': [1, 2]}}, {}]
+ATTR_POOL = [{'Label': 'A'}, {'Label': 'B'}, {'w': 1}, {'tags': ['x']}, {'meta': {'k': [1, 2]}}, {},
+             {'source': 'feed'}, {'target': 7, 'time': 3}, {'links': [1]}, {'nodes': 'n', 'graph': 'g'}]
 
 
 def gen_node(rng, rep, cfg):
@@ -310,7 +315,10 @@ def gen_restart(rng, rep, cfg, via, faults=False):
     op['target'] = rng.choice(['path', 'path', 'path', 'bytesio', 'simhandle', 'duck'])
     op['ext'] = rng.choice(['', '', '.gz', '.gzip', '.bz2'])
     op['delimiter'] = rng.choice(DELIMS)
-    if op['delimiter'] in (' ', '\t') and rng.random() < 0.5:
+    blank_ids = any(isinstance(n, str) and ' ' in n for n in cfg['nodes'])
+    if blank_ids:
+        op['delimiter'] = rng.choice([',', '\t', ';', '|', '\t'])
+    if op['delimiter'] in (' ', '\t') and rng.random() < 0.5 and not blank_ids:
         op['read_delimiter'] = None
     op['encoding'] = rng.choice(ENCODINGS)
     nonascii = any(isinstance(n, str) and not n.isascii() for n in cfg['nodes'])
@@ -319,6 +327,8 @@ def gen_restart(rng, rep, cfg, via, faults=False):
     op['bufsize'] = rng.choice([16, 64, 512, 8192])
     op['rchunk'] = rng.choice([1, 7, 64, 8192])
     op['wchunk'] = rng.choice([3, 50, 1 << 30])
+    if op['target'] in ('bytesio', 'simhandle') and rng.random() < 0.4:
+        op['preamble'] = True          # the caller's handle is not at position 0 when the library gets it
     if op['target'] == 'path' and op['ext'] == '' and rng.random() < 0.25 and \
             (not nonascii or op['encoding'] == 'utf-8'):     # the second pass of keys=True reads with the default codec
         op['keys'] = True
@@ -368,7 +378,9 @@ def gen_parse(rng, cfg):
     fmt = rng.choice(['snapshots', 'interactions'])
     directed = rng.random() < 0.5
     rows = gen_rows(rng, cfg, fmt, directed)
-    op = {'op': 'parse', 'fmt': fmt, 'directed': directed, 'rows': rows, 'delimiter': rng.choice(DELIMS),
+    blank_ids = any(isinstance(n, str) and ' ' in n for n in cfg['nodes'])
+    op = {'op': 'parse', 'fmt': fmt, 'directed': directed, 'rows': rows,
+          'delimiter': rng.choice([',', '\t', ';', '|', '\t']) if blank_ids else rng.choice(DELIMS),
           'nodekind': 'int' if isinstance(cfg['nodes'][0], int) else 'str',
           'via': rng.choice(['parse', 'read']), 'rchunk': rng.choice([1, 7, 8192]), 'bufsize': rng.choice([16, 8192])}
     kinds = ['blank', 'spaces', 'tab', 'comment', 'comment-indented', 'short1', 'short2', 'short3-or-5', 'five',
